@@ -360,13 +360,18 @@ func (c *Ctx) record(cs Case, m, s string) {
 
 func (c *Ctx) mismatch(m Mismatch) {
 	c.Res.NMismatch++
-	n := 0
+	c.Res.Tags["MISMATCH:"+m.Kind+":"+m.Tag]++
+	n, k := 0, 0
 	for _, x := range c.Res.Mismatches {
 		if x.Kind == m.Kind {
 			n++
+			if x.Tag == m.Tag {
+				k++
+			}
 		}
 	}
-	if n < 10 {
+	// keep a few of every distinct class so that one frequent failure does not hide the others
+	if (n < 10 || k == 0) && k < 3 && n < 40 {
 		c.Res.Mismatches = append(c.Res.Mismatches, m)
 	}
 }
@@ -464,3 +469,6 @@ func (c *Ctx) KnownOpen(id string) (string, bool) {
 	}
 	return "", false
 }
+
+// Tok appends a pre-formatted token.
+func (t *Toks) Tok(s string) *Toks { return t.add(s) }
